@@ -145,6 +145,17 @@ class Adapter(object):
     if "em" not in exp or "em" not in obs:
       return obs
     a, args = self.cur
+    # a frame the property accepts in two forms (Frames!EncAlts: a datagram without UDP checksum leaves as it
+    # is or with the checksum filled in): the spec logged one of them, map the other one onto it
+    alts = exp.get("alts")
+    if alts:
+      obs["alts"] = alts                 # the spec's latitude, not an observation
+      for x in obs["em"]:
+        if isinstance(x, list) and len(x) == 2 and x[1] in alts:
+          x[1] = alts[x[1]]
+      for o in obs["pins"]:
+        if o.get("data") in alts:
+          o["data"] = alts[o["data"]]
     # frames one output action puts on several ports are a set: regroup the flat
     # observation by the sizes of the expected groups, order each group by port
     flat, groups, i = obs["em"], [], 0
@@ -199,6 +210,8 @@ class Adapter(object):
     sig["first_frag"] = shape in ("u_frag1", "t_frag1t", "u_frag1_ipopt")
     sig["options"] = "opt" in shape            # the frame carries IPv4 header options and/or TCP options
     sig["ecn"] = shape.endswith("_ecn") and "set_nw_tos" in types
+    # the frame was solved to sit on a special value of the Internet checksum ('udp/zero', 'ip/carryle', ...)
+    sig["csum_shape"] = st.get("info", {}).get("csum_shape", "")
     if isinstance(obs, dict) and "EXC" in obs:
       sig["observed"] = "exception:" + obs["EXC"]
       return sig
